@@ -904,6 +904,12 @@ def c16(m, h, i, s):
             m.bad(h, i, "restriction_changed_state", "rejected attempt changed state")
     elif liq_here:
         m.hit("after-liq-untouched:" + verb + (":ok" if s.ok else ":err"), h, i)
+        # a trader who did not touch the position in this block (or has none) is not restricted: a refusal for
+        # another reason (margin, caps, band) is fine, the one-action refusal is not
+        if not s.ok and s.notes.get("why") == "restricted":
+            m.bad(h, i, "untouched_trader_restricted", f"{verb} by {snd} refused as a second action in block {height} although {snd} had not touched a position on {v} in this block")
+    elif not s.ok and s.notes.get("why") == "restricted":
+        m.bad(h, i, "restricted_without_liquidation", f"{verb} by {snd} refused as a second action in block {height}, in which no liquidation happened on {v}")
     # marker consistency: last_restriction_block == height iff a liquidation succeeded in this block
     lrb = I(s.obs, f"v{v}.lrb", 0)
     if (lrb == height) != liq_here and not (s.kind == "eng" and s.verb() == "liq"):
